@@ -28,3 +28,5 @@ pub mod sync;
 pub mod thread;
 pub mod time;
 pub mod unix;
+#[cfg(feature = "verif-hooks")]
+pub mod verif;
